@@ -35,6 +35,7 @@ from src.core.base import BaseLintContext, MultiLanguageLintRule
 from src.core.linter_utils import load_linter_config
 from src.core.types import Violation
 from src.core.violation_utils import get_violation_line, has_python_noqa, has_typescript_noqa
+from src.linter_config.directive_markers import has_bare_line_ignore
 from src.linter_config.ignore import get_ignore_parser
 
 from .config import PrintStatementConfig
@@ -276,10 +277,7 @@ class PrintStatementRule(MultiLanguageLintRule):  # thailint: ignore[srp]
 
     def _has_generic_thailint_ignore(self, line_text: str) -> bool:
         """Check for generic thailint: ignore (no brackets)."""
-        if "# thailint: ignore" not in line_text:
-            return False
-        after_ignore = line_text.split("# thailint: ignore")[1].split("#")[0]
-        return "[" not in after_ignore
+        return has_bare_line_ignore(line_text)
 
     def _check_typescript(
         self, context: BaseLintContext, config: PrintStatementConfig
@@ -410,9 +408,7 @@ class PrintStatementRule(MultiLanguageLintRule):  # thailint: ignore[srp]
         if "// thailint: ignore[print-statements]" in line_text:
             return True
 
-        if "// thailint: ignore" in line_text:
-            after_ignore = line_text.split("// thailint: ignore")[1].split("//")[0]
-            if "[" not in after_ignore:
-                return True
+        if has_bare_line_ignore(line_text):
+            return True
 
         return has_typescript_noqa(line_text)
